@@ -309,7 +309,40 @@ fn worker_inputs(rep: &mut Report, shard: usize, shards: usize, tier: &str, seed
             7 => {
                 // header mutations
                 let text = String::from_utf8_lossy(&bytes).into_owned();
-                let t = match rng.below(6) {
+                let t = match rng.below(9) {
+                    6..=8 => {
+                        // the value of xsi:schemaLocation: namespace and file name in unusual arrangements
+                        let ns = "http://autosar.org/schema/r4.0";
+                        let xsd = version.filename();
+                        let pool = [
+                            ns.to_string(),
+                            format!("{ns}\u{e4}{xsd}"),
+                            String::new(),
+                            " ".to_string(),
+                            xsd.to_string(),
+                            format!("{ns}  {xsd}"),
+                            format!("{ns}\t{xsd}"),
+                            format!("{ns}\n{xsd}"),
+                            format!("{ns} {xsd} extra"),
+                            format!("{ns} {}", xsd.to_lowercase()),
+                            format!(" {ns} {xsd}"),
+                            format!("{ns} "),
+                            format!("{ns}/ {xsd}"),
+                            format!("{ns} {}", xsd.trim_end_matches(".xsd")),
+                        ];
+                        let value = &pool[rng.below(pool.len())];
+                        match (text.find("xsi:schemaLocation=\""), text.find("xsi:schemaLocation='")) {
+                            (Some(p), _) | (None, Some(p)) => {
+                                let q = text.as_bytes()[p + 19] as char;
+                                let start = p + 20;
+                                match text[start..].find(q) {
+                                    Some(len) => format!("{}{}{}", &text[..start], value, &text[start + len..]),
+                                    None => text.clone(),
+                                }
+                            }
+                            _ => text.clone(),
+                        }
+                    }
                     0 => text.replacen("version=\"1.0\"", "version=", 1),
                     1 => text.replacen("<?xml", "<?", 1),
                     2 => text.replacen("xmlns=\"http://autosar.org/schema/r4.0\"", "xmlns=\" \"", 1),
